@@ -409,4 +409,119 @@ theorem replay_fixed (hs0 : List Handler) (w : List QMsg) :
     simp only [List.map_cons, replay, writeAll_fixed]
     exact ih (stepHandlers q.msg hs0)
 
+/-! ### per-producer order -/
+
+/-- the message a producer holds between allocation and hand-over / release -/
+def busyMsg : PPc → Option QMsg
+  | .idle => none
+  | .built q => some q
+  | .full q => some q
+
+/-- ordering invariant of the asynchronous logger (both variants): sequence numbers of one
+producer enter the channel in increasing order -/
+structure AOrd (s : AState) : Prop where
+  busy : ∀ i q, busyMsg (s.ppc i) = some q → q.src = i ∧ q.seq + 1 = s.cnt i
+  hist : ∀ q ∈ s.accepted ++ s.dropped,
+           q.seq < s.cnt q.src ∧ ∀ q0, busyMsg (s.ppc q.src) = some q0 → q.seq < q0.seq
+  ordA : s.accepted.Pairwise (fun a b => a.src = b.src → a.seq < b.seq)
+
+theorem aord_init (v : Variant) (lg : Logger) (slots n : Nat) (prog : Nat → List (Env × Call)) :
+    AOrd (ainit v lg slots n prog) :=
+  ⟨fun i q h => by simp [ainit, busyMsg] at h, fun q h => by simp [ainit] at h, by simp [ainit]⟩
+
+theorem producer_aord (s s' : AState) (i : Nat) (inv : AOrd s) (h : producerStep s i = some s') :
+    AOrd s' := by
+  obtain ⟨busy, hist, ordA⟩ := inv
+  unfold producerStep at h
+  split at h
+  · rename_i hp
+    split at h
+    · simp at h
+    · split at h <;> (injection h with h; subst h)
+      · refine ⟨?_, ?_, ordA⟩ <;> (simp only [upd]) <;> grind [busyMsg]
+      · refine ⟨?_, ?_, ordA⟩ <;> (simp only [upd]) <;> grind [busyMsg]
+  · rename_i q hp
+    have hb := busy i q (by rw [hp]; rfl)
+    split at h
+    · injection h with h; subst h
+      refine ⟨?_, ?_, ?_⟩
+      · simp only [upd]; grind [busyMsg]
+      · simp only [upd]; grind [busyMsg]
+      · show (s.accepted ++ [q]).Pairwise _
+        rw [List.pairwise_append]
+        refine ⟨ordA, by simp, ?_⟩
+        intro a ha b hb' hsrc
+        simp at hb'; subst hb'
+        have := (hist a (List.mem_append_left _ ha)).2 b (by rw [hsrc, hb.1, hp]; rfl)
+        exact this
+    · split at h <;> (injection h with h; subst h)
+      · refine ⟨?_, ?_, ordA⟩ <;> (simp only [upd]) <;> grind [busyMsg]
+      · refine ⟨?_, ?_, ordA⟩ <;> (simp only [upd]) <;> grind [busyMsg]
+  · rename_i q hp
+    have hb := busy i q (by rw [hp]; rfl)
+    injection h with h; subst h
+    refine ⟨?_, ?_, ?_⟩
+    · simp only [upd, release]; split <;> grind [busyMsg]
+    · simp only [upd, release]; split <;> grind [busyMsg]
+    · simp only [release]; split <;> exact ordA
+
+theorem aord_frame (s s' : AState) (inv : AOrd s) (h1 : s'.ppc = s.ppc) (h2 : s'.cnt = s.cnt)
+    (h3 : s'.accepted = s.accepted) (h4 : s'.dropped = s.dropped) : AOrd s' := by
+  obtain ⟨busy, hist, ordA⟩ := inv
+  exact ⟨by rw [h1, h2]; exact busy, by rw [h1, h2, h3, h4]; exact hist, by rw [h3]; exact ordA⟩
+
+theorem release_frame (s : AState) :
+    (release s).ppc = s.ppc ∧ (release s).cnt = s.cnt ∧ (release s).accepted = s.accepted ∧
+    (release s).dropped = s.dropped := by
+  unfold release; split <;> exact ⟨rfl, rfl, rfl, rfl⟩
+
+theorem writer_frame (s s' : AState) (h : writerStep s = some s') :
+    s'.ppc = s.ppc ∧ s'.cnt = s.cnt ∧ s'.accepted = s.accepted ∧ s'.dropped = s.dropped := by
+  unfold writerStep at h
+  have hr := release_frame s
+  repeat' split at h
+  all_goals first
+    | (simp at h; done)
+    | (injection h with h; subst h; first | exact ⟨rfl, rfl, rfl, rfl⟩ | exact hr)
+
+theorem destroy_frame (s s' : AState) (h : destroyStep s = some s') :
+    s'.ppc = s.ppc ∧ s'.cnt = s.cnt ∧ s'.accepted = s.accepted ∧ s'.dropped = s.dropped := by
+  unfold destroyStep at h
+  repeat' split at h
+  all_goals first
+    | (simp at h; done)
+    | (injection h with h; subst h; exact ⟨rfl, rfl, rfl, rfl⟩)
+
+theorem astep_aord (s s' : AState) (t : Tok) (ev : List String) (inv : AOrd s)
+    (h : astep s t = some (s', ev)) : AOrd s' := by
+  unfold astep at h
+  split at h
+  · cases hw : writerStep s with
+    | none => simp [hw] at h
+    | some s1 =>
+      simp only [hw, Option.map_some, Option.some.injEq, Prod.mk.injEq] at h
+      obtain ⟨a, b, c, d⟩ := writer_frame s s1 hw
+      rw [← h.1]; exact aord_frame s s1 inv a b c d
+  · split at h
+    · split at h
+      · injection h with h; injection h with h1 _; subst h1
+        exact aord_frame s _ inv rfl rfl rfl rfl
+      · cases hw : destroyStep s with
+        | none => simp [hw] at h
+        | some s1 =>
+          simp only [hw, Option.map_some, Option.some.injEq, Prod.mk.injEq] at h
+          obtain ⟨a, b, c, d⟩ := destroy_frame s s1 hw
+          rw [← h.1]; exact aord_frame s s1 inv a b c d
+    · split at h
+      · cases hw : producerStep s (t.tid - 2) with
+        | none => simp [hw] at h
+        | some s1 =>
+          simp only [hw, Option.map_some, Option.some.injEq, Prod.mk.injEq] at h
+          rw [← h.1]; exact producer_aord s s1 _ inv hw
+      · simp at h
+
+theorem aord_reach (v : Variant) (lg : Logger) (slots n : Nat) (prog : Nat → List (Env × Call))
+    (s : AState) (hr : Reach astep (ainit v lg slots n prog) s) : AOrd s :=
+  Reach.inv AOrd (aord_init v lg slots n prog) (fun s t s' ev inv h => astep_aord s s' t ev inv h) s hr
+
 end MgProof.C16
